@@ -114,7 +114,9 @@ class Unit:
                     raise SpecError('duplicate group ' + pos[0])
                 self.groups[pos[0]] = Group(pos[0], attrs, body, self)
             elif kind == 'replay':
-                self.groups[pos[0]].replay = body
+                for gn in pos[0].split(','):          # one driver may serve several groups
+                    if gn in self.groups:
+                        self.groups[gn].replay = body
             elif kind == 'end':
                 pass
             else:
